@@ -2,7 +2,7 @@
     retired nameplate / mailbox.  Classification and timing rule (for EVERY
     number of sides and every list of moods); the counting part (one record per
     retirement, none otherwise, the status row) is quoted from UsageCount.v. *)
-From MW Require Import Base Store Monad Usage Server Websocket Service Inv Obs UsageFacts ProtoFacts UsageCount UsageCount2 Inst_Params.
+From MW Require Import Base Store Monad Usage Server Websocket Service Inv Obs UsageFacts ProtoFacts UsageCount UsageCount2 ActivityFacts Inst_Params.
 
 (** nameplates: crowded (> 2 sides), else pruney, else happy (2 sides), else lonely *)
 Theorem C15_nameplate_result :
@@ -121,6 +121,22 @@ Theorem C15_bind_client_version : ltac:(let t := type of bind_effect in exact t)
 Proof. exact bind_effect. Qed.
 Check C15_bind_client_version.
 Print Assumptions C15_bind_client_version.
+
+(** ** start, waiting and total times, exactly (ActivityFacts.v): with the sides' arrival times
+    sorted as t0 <= t1 <= ..., [started] is t0 rounded down to the blur interval, [total] is
+    the retirement time minus t0, [waiting] is t1 - t0 -- and is absent for a single side; a
+    mailbox without any side (it exists only after a crash) is recorded as started at its
+    retirement, total 0, no waiting time *)
+Theorem C15_waiting_spec : ltac:(let t := type of waiting_spec in exact t).
+Proof. exact waiting_spec. Qed.
+Check C15_waiting_spec.
+Print Assumptions C15_waiting_spec.
+
+Theorem C15_nameplate_waiting_bounds : ltac:(let t := type of nameplate_waiting_bounds in exact t).
+Proof. exact nameplate_waiting_bounds. Qed.
+Check C15_nameplate_waiting_bounds.
+Print Assumptions C15_nameplate_waiting_bounds.
+
 
 Example C15_nonvacuous :
   umb_result (summarize_mailbox None "a" true
